@@ -15,6 +15,7 @@ def main(argv):
             print('VIOLATION property=%s replay=%s' % (prop, argv[2]))
         return p.returncode
     tier = argv[1] if len(argv) > 1 else os.environ.get('VERIF_TIER', 'quick')
+    os.environ['VERIF_TIER'] = tier
     mod = importlib.import_module('checks.' + prop.lower())
     return mod.run(tier)
 
